@@ -235,7 +235,7 @@ fn reference_has_no_dead_end(bnf: &crate::refs::cfg_earley::Bnf) -> bool {
     use crate::refs::cfg_earley::Earley;
     use std::collections::HashMap;
     let e = Earley::new(bnf);
-    let alphabet: Vec<u8> = b"abcdefpq!".to_vec();
+    let alphabet: Vec<u8> = b"abcdefpqxz!".to_vec();
     let mut ids: HashMap<u64, usize> = HashMap::new();
     let mut charts = vec![e.start()];
     ids.insert(e.key(&charts[0]), 0);
